@@ -91,6 +91,14 @@ def run(rep, tier, seed, replay):
             continue
         if mnew_panic:
             rep.violation("correspondence", "totality: the model predicts a panic in Glob::new that does not happen", inp, impl=line[:200], model=ml[:100])
+        nums = [int(x) for x in re.findall(r"\d+", e)]
+        small = len(e) < 200 and all(x < 50 for x in nums) and (max(nums) if nums else 1) ** min(len(nums), 3) < 3000 and not re.search(r"[{<]{12,}", e)
+        if new.startswith("err_compile") and ml is not None and not ml.startswith("err compile") and small:
+            # "a compile error is reported only for an oversized program": the model knows the limits of the regex PARSER (bounds
+            # beyond u32, nesting); the size limit of the compiled program is not modelled, so only small expressions (short, small
+            # bounds, shallow) are judged: a compile error on one of them is an expression that should have built
+            rep.violation("oracle", "Glob::new reports a compile error for an expression that is within every limit (the model builds it)", inp, impl=line[:200], model=ml[:120])
+            continue
         if new != "ok":
             kind = new.split("_")[1] if "_" in new else new
             rep.stats["new:err-" + kind] += 1
